@@ -171,7 +171,7 @@ def run(ctx):
 
         def run_calls(d, K):
             for mth in methods:
-                for tag, vv in (("v1#a", v1), ("v2#b", v2), ("None#c", None)):
+                for tag, vv in (("v1#a", v1), ("v2#b", v2)):
                     res = d.solve(method=mth, v_init=None if vv is None else vv, max_iter=40 if mth != "lp" else None)
                     K.keep("solve(%s).v %s" % (mth, tag), res.v); K.keep("solve(%s).sigma %s" % (mth, tag), res.sigma)
                     K.keep("solve(%s).mc.P %s" % (mth, tag), res.mc.P)
@@ -432,7 +432,8 @@ def run(ctx):
                         ctx.count("argument form v_init:" + fname)
 
                 # ---------------- result aliasing across solve calls (keep-and-recheck, scribble, shares_memory)
-                alias_solve(inst, form, ddp, inp0, kind)
+                if thorough or ii % 3 == 0 or ii < 3:
+                    alias_solve(inst, form, ddp, inp0, kind)
 
                 # ---------------- hardening audit (dress/dtype, state and sequences, non-mutation, optional/falsy arguments)
                 if thorough or ii % 6 == 0:
